@@ -155,6 +155,20 @@ def run(ctx) -> None:
                     hashed_whole = True
                 if isinstance(a, ast.Name) and a.id == "text":
                     hashed_whole = True
+    # the digest is used in full: a sliced / truncated digest makes different texts share a cache entry with a probability that
+    # is no longer negligible (2^-32 for 8 hex digits: a birthday search over edits of one model finds a pair in minutes)
+    truncated = None
+    for hd in hash_defs:
+        for c in ast.walk(hd):
+            if isinstance(c, ast.Subscript) and any(isinstance(x, ast.Call) and isinstance(x.func, ast.Attribute) and x.func.attr in ("hexdigest", "digest") for x in ast.walk(c.value)):
+                truncated = c
+    for n in ast.walk(load_model.node):
+        if isinstance(n, ast.Subscript) and dotted_of(n.value) == "text_hash":
+            truncated = n
+    if truncated is not None:
+        ctx.fail("KEY", load_model, truncated, f"`{short(truncated)}` uses only a part of the digest in the cache key: two different model texts can share an entry, and the second run silently generates from the first model", construct="cache key uses the full digest")
+    else:
+        ctx.ok("KEY", load_model, load_model.node, what="the digest enters the cache key in full")
     if missing or not whole or not hashed_whole:
         ctx.fail("KEY", load_model, load_model.node, "cache_path does not depend on " + (", ".join(missing) if missing else "sha256 of the unmodified full text"), construct="cache_path")
     else:
